@@ -46,50 +46,47 @@ theorem lb_sparse_direct_returns {K : Type} [Field K] [DecidableEq K] (n num : N
     (lb n num kMin true Kc (some o) second).2 = .ok ⟨negInvVals o.vals, o.vecs⟩ :=
   lb_sparse_direct_aux n num kMin Kc o second
 
-/-- EXACT characterisation, sparse fallback path (`zeros((n, num_eigvalues))[used_cols, :] = peigvecs`):
-it returns iff the solver delivered exactly `num_eigvalues` columns (or a single one, which numpy
-broadcasts); otherwise the glue raises numpy's shape-mismatch error with these shapes. -/
-theorem lb_sparse_fallback_shapes {K : Type} [Field K] [DecidableEq K] (n num : Nat) (kMin : Bool)
-    (Kc : Coo K) (o : Out K K) (hrows : o.vecs.rows = (usedCols n Kc).length) :
-    ((∃ r, (lb n num kMin true Kc none (some o)).2 = .ok r) ↔ (o.vecs.ncols = num ∨ o.vecs.ncols = 1)) ∧
-    (¬ (o.vecs.ncols = num ∨ o.vecs.ncols = 1) → (lb n num kMin true Kc none (some o)).2 =
-      .error (.shapeMismatch (o.vecs.rows, o.vecs.ncols) ((usedCols n Kc).length, num))) :=
-  lb_sparse_fallback_aux n num kMin Kc o hrows
+/-- TOTALITY of the repaired glue (/repo 3692045: the mode array is allocated with the number of columns
+delivered): for EVERY size `n`, every `num_eigvalues`, every matrix and every number of delivered columns,
+`lb` returns on all three paths.  The only residual precondition is the solver's own: the call the result
+is built from returned, with one row per active amplitude (`hrows`). -/
+theorem lb_shapes_total {K : Type} [Field K] [DecidableEq K] (n num : Nat) (kMin : Bool) (Kc : Coo K)
+    (o : Out K K) (other : Option (Out K K)) (hrows : o.vecs.rows = (usedCols n Kc).length) :
+    (∃ r, (lb n num kMin true Kc (some o) other).2 = .ok r) ∧
+    (∃ r, (lb n num kMin true Kc none (some o)).2 = .ok r) ∧
+    (∃ r, (lb n num kMin false Kc (some o) other).2 = .ok r) :=
+  lb_shapes_total_aux n num kMin Kc o other hrows
 
-/-- EXACT characterisation, dense path (`zeros((n, num))[used_cols, :] = peigvecs[:, :num]`): it returns iff
-`num_eigvalues` does not exceed the number of columns `eigh` delivered (the number of active amplitudes),
-or exactly one column is left. -/
-theorem lb_dense_shapes {K : Type} [Field K] [DecidableEq K] (n num : Nat) (kMin : Bool) (Kc : Coo K)
-    (o : Out K K) (second : Option (Out K K)) (hrows : o.vecs.rows = (usedCols n Kc).length) :
-    ((∃ r, (lb n num kMin false Kc (some o) second).2 = .ok r) ↔
-      (min num o.vecs.ncols = num ∨ min num o.vecs.ncols = 1)) ∧
-    (¬ (min num o.vecs.ncols = num ∨ min num o.vecs.ncols = 1) →
-      (lb n num kMin false Kc (some o) second).2 =
-      .error (.shapeMismatch (o.vecs.rows, min num o.vecs.ncols) ((usedCols n Kc).length, num))) :=
-  lb_dense_aux n num kMin Kc o second hrows
+/-- what is returned on the reduced paths: `n` rows; as many modes as the solver delivered (sparse fallback)
+resp. `min(num_eigvalues, #delivered)` (dense); `λ` for every delivered `μ`. -/
+theorem lb_result_shape {K : Type} [Field K] [DecidableEq K] (n num : Nat) (kMin : Bool) (Kc : Coo K)
+    (o : Out K K) (other : Option (Out K K)) (r : Out (Option K) K) :
+    ((lb n num kMin true Kc none (some o)).2 = .ok r → r.vecs.rows = n ∧ r.vecs.ncols = o.vecs.ncols ∧
+      r.vals.length = o.vals.length) ∧
+    ((lb n num kMin false Kc (some o) other).2 = .ok r → r.vecs.rows = n ∧
+      r.vecs.ncols = min num o.vecs.ncols ∧ r.vals.length = o.vals.length) :=
+  lb_result_shape_aux n num kMin Kc o other r
 
-/-- The weaker TRUE shape statement (the full one, "never a shape error for n ≥ 5, 1 ≤ num ≤ 25", is false:
-`lb_shapes_counterexample`): with solvers that deliver `min(num, n-2)` resp. `#active` columns, `lb` returns
-whenever `num ≤ n-2` (sparse fallback) resp. `num ≤ #active amplitudes` (dense). -/
-theorem lb_shapes_partial {K : Type} [Field K] [DecidableEq K] (n num : Nat) (kMin : Bool) (Kc : Coo K)
-    (o : Out K K) (hrows : o.vecs.rows = (usedCols n Kc).length) :
-    (o.vecs.ncols = min num (n - 2) → num ≤ n - 2 →
-      ∃ r, (lb n num kMin true Kc none (some o)).2 = .ok r) ∧
-    (o.vecs.ncols = (usedCols n Kc).length → num ≤ (usedCols n Kc).length →
-      ∃ r, (lb n num kMin false Kc (some o) none).2 = .ok r) :=
-  lb_shapes_partial_aux n num kMin Kc o hrows
+/-- The residual precondition is met by the glue itself (/repo d870371: `k = min(k, N-1)` after
+`remove_null_cols`): ARPACK needs `0 < k < N`; the first request `k = min(num, n-2)` and the re-capped second
+request (`analysis.lb` and `Panel.lb`) are inside that range whenever `num ≥ 1`, `n ≥ 3` and at least two
+amplitudes are active. -/
+theorem lb_requests_in_arpack_range (n num nred : Nat) (hnum : 1 ≤ num) (hn : 3 ≤ n) (hred : 2 ≤ nred) :
+    (0 < lbK n num true ∧ lbK n num true < n) ∧
+    (0 < lbK2 n num true nred ∧ lbK2 n num true nred < nred) ∧
+    (0 < lbK2 n num false nred ∧ lbK2 n num false nred < nred) :=
+  lb_requests_in_range_aux n num nred hnum hn hred
 
-/-- Counter-examples to "every quantity is returned" with the default `num_eigvalues = 25`:
-dense path, 6 active amplitudes (`eigh` returns a 6×6 block); sparse fallback path, 8 amplitudes of which one
-has no stiffness (`k = min(25, 6) = 6`, `eigsh` returns a 7×6 block).  Both raise the shape mismatch.
-The same sparse case returns when 6 values are requested. -/
-theorem lb_shapes_counterexample :
-    (lb 6 25 true false (cexDiag 6 []) (some ⟨List.replicate 6 (-1), cexBlock 6 6⟩) none).2
-      = .error (.shapeMismatch (6, 6) (6, 25)) ∧
-    (lb 8 25 true true (cexDiag 8 [3]) none (some ⟨List.replicate 6 (-1), cexBlock 7 6⟩)).2
-      = .error (.shapeMismatch (7, 6) (7, 25)) ∧
-    ∃ r, (lb 8 6 true true (cexDiag 8 [3]) none (some ⟨List.replicate 6 (-1), cexBlock 7 6⟩)).2 = .ok r :=
-  ⟨lb_dense_cex, lb_sparse_cex, lb_sparse_ok_instance⟩
+/-- Regression instances of the two repaired defects: dense path, 6 active amplitudes, default 25 requested
+→ 6 modes; sparse fallback, 8 amplitudes one null, default 25 → the 6 delivered modes; 8 amplitudes two null,
+6 requested → requests `k = 6` then `k = 5 < 6 active`. -/
+theorem lb_repaired_instances_return :
+    ((lb 6 25 true false (cexDiag 6 []) (some ⟨List.replicate 6 (-1), cexBlock 6 6⟩) none).2.toOption.map
+      fun r => r.vecs.shape) = some (6, 6) ∧
+    ((lb 8 25 true true (cexDiag 8 [3]) none (some ⟨List.replicate 6 (-1), cexBlock 7 6⟩)).2.toOption.map
+      fun r => r.vecs.shape) = some (8, 6) ∧
+    (lb 8 6 true true (cexDiag 8 [2, 3]) none none).1.map (·.k) = [some 6, some 5] :=
+  lb_repaired_instances
 
 /-- `λ = -1/μ` order lemma: solver values `μ` ascending and all negative (destabilising reference load) give
 multipliers `λ` ascending and all positive. -/
